@@ -1119,6 +1119,13 @@ class Interp:
                     return NumV(self.heads.sqrt(a.rat), self.unit_pow(ut_a, e))
                 raise Unsupported(f"power of a sum by a symbolic exponent at {fi.where(node)}")
             return NumV(r, self.unit_pow(ut_a, e))
+        if op == "FloorDiv" and (a.ut is not None or b.ut is not None):
+            # a magnitude rounded down: an opaque number typed by the quotient of the operands' units
+            self.events.append(Event("floordiv", node, {"func": fi.qual}))
+            return NumV(Rat.atom(f"floor[{(a.rat / b.rat)!r}]"), self.unit_mul(ut_a, ut_b, -1))
+        if op == "Mod" and (a.ut is not None or b.ut is not None):
+            self.events.append(Event("mod", node, {"left": a, "right": b, "homogeneous": ut_a.same(ut_b), "func": fi.qual}))
+            return NumV(Rat.atom(f"mod[{a.rat!r},{b.rat!r}]"), a.ut if a.ut is not None else b.ut)
         if op == "FloorDiv":
             self.events.append(Event("floordiv", node, {"func": fi.qual}))
             return NumV(a.rat / b.rat, self.unit_mul(ut_a, ut_b, -1))
@@ -1476,6 +1483,10 @@ class Interp:
                     # a bare number is taken to be in the measurand's unit
                     return MeasV(q, QuantV(NumV(self.heads.abs(sn.rat), q.unit), q.unit))
             return OpaqueV("Measurement(non-abstract)")
+        if cls == "Logarithm":
+            b, px = arg(0, "base"), arg(1, "prefix")
+            self.events.append(Event("ctor", node, {"cls": "Logarithm", "base": b, "prefix": px, "func": fi.qual}))
+            return ObjV("Logarithm", {"base": b if b is not None else OpaqueV("base"), "prefix": px if px is not None else identity("P")})
         if cls == "Level":
             m, u = arg(0, "magnitude"), arg(1, "unit")
             mn = self.to_num(m) if m is not None else None
